@@ -97,6 +97,9 @@ func (p *Provider) SetStoreConfig(name string, config spi.StoreConfiguration) er
 func (p *Provider) GetStoreConfig(name string) (spi.StoreConfiguration, error) {
 	storeName := strings.ToLower(name)
 
+	p.lock.RLock()
+	defer p.lock.RUnlock()
+
 	store := p.dbs[storeName]
 	if store == nil {
 		return spi.StoreConfiguration{}, spi.ErrStoreNotFound
